@@ -45,7 +45,7 @@ class Group:
 
 class Unit:
     def __init__(self, name, group, enforce, harness=None, replace=(), flags=(), tier='quick', functions=(),
-                 loops='none', timeout=None, note='', bounded=None, checks=None, object_bits=None, light=False):
+                 loops='none', timeout=None, note='', bounded=None, checks=None, object_bits=None, light=False, never_returns=False):
         self.name = name
         self.group = group
         self.enforce = enforce
@@ -60,6 +60,7 @@ class Unit:
         self.bounded = bounded      # None, or a string describing the bound (then never counted as proved)
         self.checks = checks
         self.object_bits = object_bits
+        self.never_returns = never_returns   # contract says the call does not return: sentinel must be unreachable, the exit marker reachable
         self.light = light   # no dfcc: harness-style check (requires = exact-extent declarations, ensures = assertions, callee contracts = assume stubs)
 
 
@@ -251,6 +252,19 @@ class Runner:
         npost = len([1 for o_ in obl if o_[0].startswith(u.enforce + '.postcondition') or (u.light and 'postcondition' in o_[2])])
         if trace_property:
             res['status'] = 'traced'
+            return res
+        if u.never_returns:
+            reach = [o_ for o_ in obl if 'vf_reach_exit' in o_[2]]
+            obl2 = [o_ for o_ in obl if 'vf_reach_exit' not in o_[2]]
+            res['failed'] = [f for f in failed if 'vf_reach_exit' not in f['description']]
+            res['obligations'] = len(obl2) + 2
+            ok_reach = bool(reach) and all(o_[1] == 'FAILURE' for o_ in reach)
+            res['discharged'] = len([1 for o_ in obl2 if o_[1] == 'SUCCESS']) + (1 if ok_reach else 0) + (1 if sentinel == 'SUCCESS' else 0)
+            if not ok_reach:
+                res['failed'].append(dict(obligation='vf_reach_exit', status='UNREACHABLE', description='the diagnostic exit must be reachable', location={}, trace=None))
+            if sentinel != 'SUCCESS':
+                res['failed'].append(dict(obligation='vf_returns', status='FAILURE', description='the call returns although the contract says it never does', location={}, trace=None))
+            res['status'] = 'failed' if res['failed'] else 'proved'
             return res
         if sentinel != 'FAILURE':
             res['status'] = 'vacuous'
